@@ -557,6 +557,21 @@ def duplicate_entries(text):
     return None
 
 
+def duplicate_cases(text):
+    """The dispatch of an overloaded binding is one `switch (SH_nargs)` with one arm per stack depth; a depth that labels two
+    arms splits its signatures (C does not even accept the second label, and read as written the second arm is never
+    reached after the first arm's `else luaL_error`)."""
+    for m in re.finditer(r"(?s)static int (l_\w+)\s*\(lua_State[^)]*\)\s*\{(.*?)\n\}", text):
+        body = m.group(2)
+        for sw in body.split("switch (SH_nargs)")[1:]:
+            labels = re.findall(r"(?m)^\s*case (\d+):", sw)
+            for lab in labels:
+                if labels.count(lab) > 1:
+                    return "binding %s: stack depth %s labels %d arms of the dispatch switch: its signatures are split and the later arm cannot be reached" % (
+                        m.group(1), lab, labels.count(lab))
+    return None
+
+
 def generated_lua_text():
     """The Lua module as the generator writes it (no compilation)."""
     from gen import pipeline
@@ -644,7 +659,7 @@ def confirm(w):
     """Re-execute the harness pinned to the witness stack (the Lua runtime is not installed, so there
     is no native Lua to replay against); returns the violation text if it shows again."""
     if w.get("kernel") == "registration-text":
-        return duplicate_entries(generated_lua_text())
+        return duplicate_entries(generated_lua_text()) or duplicate_cases(generated_lua_text())
     if w.get("kernel") == "registration":
         return registration_verdict(lc.get_build(BUILD))
     if w.get("kernel") == "metatables":
@@ -684,7 +699,7 @@ def main():
         # the generated text alone
         dup = None
         try:
-            dup = duplicate_entries(generated_lua_text())
+            dup = duplicate_entries(generated_lua_text()) or duplicate_cases(generated_lua_text())
         except Exception:
             pass
         if dup:
